@@ -333,7 +333,7 @@ impl Property for C18 {
     }
     fn budget(&self, tier: Tier) -> Budget {
         match tier {
-            Tier::Quick => Budget { release: 600_000, dbg: 200_000, workers: 8 },
+            Tier::Quick => Budget { release: 2_400_000, dbg: 800_000, workers: 8 },
             Tier::Thorough => Budget { release: 16_000_000, dbg: 4_000_000, workers: 16 },
         }
     }
